@@ -29,6 +29,12 @@ const SNIPPETS = [
   ['const a$ = <Comp>{...kids}</Comp>;', []],
   ['const a$ = <div style={s1} Style={s2} STYLE="z" />;', []],
   ['function f$() { return <ul>{items.map((i) => <li key={i}>{i}</li>)}</ul>; }', []],
+  ['const a$ = <div nativeOnly={v} nativeOnClick={h} online="1" once onward={w} />;', []],
+  ['const a$ = <Comp ongoing="x" nativeOnce={v} one={1} />;', []],
+  ['const a$ = <UIButton kind="k"><b />text</UIButton>;', []],
+  ['const a$ = <UIList>{child}</UIList>;', ['soleIdent']],
+  ['const a$ = <X-Panel a="1">k</X-Panel>;', ['patternCI']],
+  ['const a$ = <UiBox>{v}<i /></UiBox>;', ['patternUi']],
   ['const a$ = <div on={{ click: h }} />;', ['on']],
   ['const a$ = <Comp nativeOn={{ click: h }} id="i" />;', ['on']],
   ['const a$ = <div {...props} id="i" />;', ['spread']],
@@ -53,7 +59,7 @@ const FEATURE_OF = {
   transformOn: (f) => f.has('on'),
   mergeProps: (f) => f.has('spread') || f.has('repeat') || f.has('on'),
   enableObjectSlots: (f) => f.has('soleIdent') || f.has('soleCall'),
-  customElementPatterns: (f) => f.has('pattern'),
+  customElementPatterns: (f, list) => f.has('pattern') || (list && list.length > 1 && (f.has('patternCI') || f.has('patternUi'))),
   resolveType: (f) => f.has('defineComponent'),
 };
 const ON = { transformOn: true, mergeProps: false, enableObjectSlots: false, customElementPatterns: ['^x-'], resolveType: true };
@@ -62,6 +68,9 @@ const OFF = { transformOn: false, mergeProps: true, enableObjectSlots: true, cus
 function randomBase(rng) {
   const o = {};
   for (const k of Object.keys(ON)) o[k] = rng.bool() ? ON[k] : OFF[k];
+  // the pattern list that counts as "on" for this base: one pattern, or two where the first carries an inline flag
+  o.__patternsOn = rng.bool() ? ['^x-'] : ['(?i)^x-', '^Ui'];
+  if (o.customElementPatterns.length) o.customElementPatterns = o.__patternsOn;
   o.optimize = rng.bool();
   if (rng.bool(0.2)) o.pragma = 'h';
   return o;
@@ -134,11 +143,12 @@ export function* generate({ tier, seed }) {
     const bases = tier === 'quick' ? [randomBase(rng), randomBase(rng)] : Array.from({ length: 8 }, () => randomBase(rng));
     bases.forEach((base, bi) => {
       for (const opt of Object.keys(FEATURE_OF)) {
-        if (FEATURE_OF[opt](m.feats)) continue;
-        if (opt === 'mergeProps' && m.feats.has('on') === false && false) continue;
+        const { __patternsOn, ...clean } = base;
+        const onValue = opt === 'customElementPatterns' ? __patternsOn : ON[opt];
+        if (FEATURE_OF[opt](m.feats, onValue)) continue;
         const a = `b${bi}-${opt}-off`, b = `b${bi}-${opt}-on`;
-        variants.push({ vid: a, options: { ...base, [opt]: OFF[opt] } });
-        variants.push({ vid: b, options: { ...base, [opt]: ON[opt] } });
+        variants.push({ vid: a, options: { ...clean, [opt]: OFF[opt] } });
+        variants.push({ vid: b, options: { ...clean, [opt]: onValue } });
         pairs.push({ a, b, label: opt, kind: 'isolation' });
       }
     });
